@@ -369,6 +369,7 @@ func checkC11(p *Prog, r *Report) {
 		"byte equality of decode/encode for all messages (differential testing against the reference codec); only the layout of the leading fields and their field mapping is decided",
 		"the opaque remainder (flags, values, paging state ...) which is copied verbatim")
 	codecLayouts(p, r, "C11")
+	readerPosition(p, r, "C11.reader-position")
 }
 
 // codecLayouts holds the layout/error/registration rules (also used by C12 and C03,
